@@ -383,7 +383,7 @@ def run(rep, tier, seed, only=None):
     items = []
     if sub("template"):
         for t in circgen.ALL_TYPES:
-            ar = [1] if t in circgen.UNARY else [2] if t in circgen.BINARY_ONLY else (list(range(2, 7)) + ([8, 11] if t.name in ('XOR', 'NXOR') else [8, 11, 13, 16, 21]) + (([9, 10, 12, 13] if t.name in ('XOR', 'NXOR') else [9, 10, 12, 32]) if thorough else [])) if t in circgen.NARY else [0]
+            ar = [1] if t in circgen.UNARY else [2] if t in circgen.BINARY_ONLY else (list(range(2, 7)) + ([8, 11] if t.name in ('XOR', 'NXOR') else [8, 11, 13, 16, 21]) + (([9, 10, 12, 13] if t.name in ('XOR', 'NXOR') else [9, 10, 12, 32]) if thorough else [])) if t in circgen.NARY else [0, 1, 2, 3]  # constants may carry (ignored) operands: the database decoder and the arithmetic gate table produce them
             items += [("template", (t.name, k)) for k in ar]
     if sub("feature"):
         items.append(("feature", None))
